@@ -49,7 +49,10 @@ def state_after(history):
     """contents per uri id after a history of (kind, uid, doc)"""
     st = {}
     for k, uid, d in history:
-        st[uid] = d
+        if k == "X":
+            st.pop(uid, None)
+        else:
+            st[uid] = d
     return st
 
 
@@ -147,6 +150,17 @@ def search(run, info):
     for a, b in itertools.product(range(2), repeat=2):
         for c, d in itertools.product(docs_alpha, repeat=2):
             histories.append([("O", 1, a), ("C", 1, b), ("O", 1, c), ("C", 1, d)])
+    # closing a document: it is no longer part of what is analysed (all histories of the quick depth with at least one didClose,
+    # and random long ones)
+    xsteps = steps + [("X", 1, None), ("X", 2, None)]
+    histories += [list(h) for h in itertools.product(xsteps, repeat=3) if any(x[0] == "X" for x in h) and h[-1][0] != "X"]
+    for _ in range(nrand // 2):
+        n = rng.randint(4, 40)
+        h = []
+        for _ in range(n):
+            k = rng.choice("OCCX")
+            h.append((k, rng.randint(1, 2), None if k == "X" else rng.randrange(len(texts))))
+        histories.append(h + [(rng.choice("OC"), rng.randint(1, 2), rng.randrange(len(texts)))])
     for d in range(5, len(texts)):
         histories.append([("O", 1, d)])
         histories.append([("O", 1, 0), ("C", 1, d)])
@@ -158,8 +172,9 @@ def search(run, info):
         ver = {}
         out = []
         for (k, uid, d) in h:
-            ver[uid] = 1 if k == "O" else ver.get(uid, 0) + 1
-            out.append(ver[uid])
+            if k != "X":
+                ver[uid] = 1 if k == "O" else ver.get(uid, 0) + 1
+            out.append(ver.get(uid, 0))
         return out
 
     def msgs_of(h):
@@ -167,6 +182,8 @@ def search(run, info):
         for v, (k, uid, d) in zip(versions_of(h), h):
             if k == "O":
                 out.append(("O", uid, True, v, d))
+            elif k == "X":
+                out.append(("X", uid, True))
             else:
                 out.append(("C", uid, True, v, [d]))
         return out
@@ -186,6 +203,9 @@ def search(run, info):
     for h in histories:
         st = {}
         for (k, uid, d) in h:
+            if k == "X":
+                st.pop(uid, None)
+                continue
             st[uid] = d
             needed.add((tuple(sorted(st.items())), uid))
     needed = sorted(needed)
@@ -219,14 +239,20 @@ def search(run, info):
                           {"history": [list(x) for x in h], "docs": names, "stderr": res["stderr"][-500:]})
             continue
         pubs = [f["params"] for f in res["frames"] if f.get("method") == "textDocument/publishDiagnostics"]
-        if len(pubs) != len(h):
-            run.violation("impl-violates-property", "%d notifications were answered by %d publishDiagnostics" % (len(h), len(pubs)),
+        nnote = len([x for x in h if x[0] != "X"])
+        if len(pubs) != nnote:
+            run.violation("impl-violates-property", "%d didOpen/didChange notifications were answered by %d publishDiagnostics" % (nnote, len(pubs)),
                           {"history": [list(x) for x in h], "docs": names})
             continue
         st = {}
         bad = False
         vers = versions_of(h)
-        for i, ((k, uid, d), p) in enumerate(zip(h, pubs)):
+        pit = iter(pubs)
+        for i, (k, uid, d) in enumerate(h):
+            if k == "X":
+                st.pop(uid, None)
+                continue
+            p = next(pit)
             st[uid] = d
             pubs_checked += 1
             if p["uri"] != L.uri_str(uid, True) or p.get("version") != vers[i]:
@@ -244,7 +270,7 @@ def search(run, info):
             if got not in fr:
                 run.violation("impl-violates-property",
                               "after history %r the server published %r for document %d; a fresh server with the same contents publishes %r" % (
-                                  [(a, b, names[c]) for a, b, c in h[:i + 1]], got, uid, sorted(fr, key=str)[:2]),
+                                  [(a, b, names[c] if c is not None else None) for a, b, c in h[:i + 1]], got, uid, sorted(fr, key=str)[:2]),
                               {"history": [list(x) for x in h[:i + 1]], "docs": names, "published": got, "fresh": sorted(fr, key=str)})
                 bad = True
                 break
@@ -267,12 +293,13 @@ def search(run, info):
                 run.violation("correspondence", "language-server model and real server write different frames for history %r" % (h[:4],),
                               {"history": [list(x) for x in h]}, no_input=True)
         if hi % 1500 == 0:
-            run.sample({"history": [(a, b, names[c]) for a, b, c in h[:4]],
+            run.sample({"history": [(a, b, names[c] if c is not None else None) for a, b, c in h[:4]],
                         "published": [sorted(L.diag_key(x) for x in p["diagnostics"]) for p in pubs[:4]]})
     return {"coverage": {
         "rule": "all notification sequences of length %d over 2 URIs x 5 document texts (valid, lexical error, syntax error, semantic "
                 "error, depends-on-other-document) x {didOpen, didChange} (every prefix is checked through its publish; versions are "
-                "counted per document and restart at 1 on every didOpen), the 100 open-change-reopen-change histories, plus random "
+                "counted per document and restart at 1 on every didOpen), the 100 open-change-reopen-change histories, all histories of "
+                "length 3 over the same steps and didClose of either URI that contain a didClose and end in a notification, plus random "
                 "histories of length 4-40 over 10 documents incl. a pair with a two-file diagnostic and three with non-ASCII characters in front of the diagnosed place; every publish is compared with a "
                 "fresh server (3 runs) given the same current contents and with `ironplcc check`; non-trivial = every history, "
                 "distinct by message list" % depth,
@@ -294,11 +321,14 @@ def replay(run, rep):
     msgs = []
     ver = {}
     for (k, uid, d) in h:
+        if k == "X":
+            msgs.append(("X", uid, True))
+            continue
         ver[uid] = 1 if k == "O" else ver.get(uid, 0) + 1
         msgs.append(("O", uid, True, ver[uid], d) if k == "O" else ("C", uid, True, ver[uid], [d]))
     res = lspclient.session(binp, [L.to_real(m, texts) for m in msgs], timeout=120)
     pubs = [f["params"] for f in res["frames"] if f.get("method") == "textDocument/publishDiagnostics"]
-    if res["exit"] != 0 or len(pubs) != len(h):
+    if res["exit"] != 0 or len(pubs) != len([x for x in h if x[0] != "X"]):
         return 1
     st = state_after(h)
     uid = h[-1][1]
